@@ -52,6 +52,34 @@ Definition Allow (a : acl) (user scope : string) (required : Z) : Z * bool :=
     if acl_perm_prohibit <=? fst r then r
     else allow1 a acl_default_user scope required.
 
+(* ---- installing tables: ACL.setUser and YAMLACL.Import / loadACLFromYAML ----
+   setUser(user, m): refused for the superuser; an empty m removes the user; otherwise the user's table becomes m
+   (when the LockedMap already holds an equal table -- compareACLUserValues -- the set is skipped: same content).
+   Import(yaml of tbl): when the parsed table differs from the installed one (compareACLUserValues per user, both
+   directions) the map is emptied and every user with a non-empty table is set; otherwise nothing is done: in both
+   cases the installed table is tbl afterwards.  Tables naming the superuser and empty YAML are not modelled. *)
+
+Fixpoint remove_user {A} (u : string) (m : list (string * A)) : list (string * A) :=
+  match m with
+  | [] => []
+  | (k, v) :: r => if String.eqb u k then remove_user u r else (k, v) :: remove_user u r
+  end.
+
+Inductive install :=
+| ISet (user : string) (m : perms)
+| IImport (tbl : list (string * perms)).
+
+Definition apply_install (a : acl) (i : install) : acl :=
+  match i with
+  | ISet u m =>
+      if String.eqb u (superuser a) then a
+      else match m with
+           | [] => mkACL (superuser a) (remove_user u (users a))
+           | _ => mkACL (superuser a) ((u, m) :: remove_user u (users a))
+           end
+  | IImport tbl => mkACL (superuser a) (filter (fun e => match snd e with [] => false | _ => true end) tbl)
+  end.
+
 (* ---- the specification side: the documented precedence chain ---- *)
 
 Definition cell (a : acl) (user scope : string) : option Z :=
@@ -146,6 +174,8 @@ Inductive case :=
         (observed : list Z)            (* answers for every u in us, s in ss, r in rs, in that order *)
 | CAllow (super : string) (tbl : list (string * perms))
          (queries : list (string * string * Z * Z))   (* user, scope, required, observed code *)
+| CHist (super : string) (us ss : list string) (rs : list Z)
+        (steps : list (list install * list Z))        (* successive installs on ONE ACL; after each group the grid answers *)
 | CPrint (p : Z) (observed : string)
 | CParse (t : string) (observed : option Z)           (* UnmarshalText: Some p / None = error *)
 | CParseO (n : Z) (observed : option Z)               (* the same for the text of n 'o's *)
@@ -155,8 +185,17 @@ Inductive case :=
 Definition optZ_eqb (x y : option Z) : bool :=
   match x, y with Some a, Some b => Z.eqb a b | None, None => true | _, _ => false end.
 
+Fixpoint check_hist (a : acl) (us ss : list string) (rs : list Z) (steps : list (list install * list Z)) : bool :=
+  match steps with
+  | [] => true
+  | (is, obs) :: r =>
+      let a' := fold_left apply_install is a in
+      zlist_eqb (grid_answers a' us ss rs) obs && check_hist a' us ss rs r
+  end.
+
 Definition check (c : case) : bool :=
   match c with
+  | CHist su us ss rs steps => check_hist (mkACL su []) us ss rs steps
   | CGrid su tbl us ss rs obs => zlist_eqb (grid_answers (mkACL su tbl) us ss rs) obs
   | CAllow su tbl qs =>
       let a := mkACL su tbl in
